@@ -50,12 +50,18 @@ func sameFloats(a, b []float64) bool {
 func execC11(t *testing.T, c any, o *Outcome) {
 	pc := c.(*PipeCase)
 	fpos, fkind := pc.hasFault()
-	// 1. sequential reference run
-	base := runPipe(t, pc, 1, seqSched(), 2_000_000)
+	var base, got *PipeResult
+	if pc.Sched.Seed%2 == 0 {
+		// the scheduled run comes first: whatever the process memoises is then first touched by several workers
+		o.Probe("threaded-run-first")
+		got = runPipeT(t, pc, pc.Cpus, pc.Sched, 4_000_000, nominalStmts)
+		base = runPipe(t, pc, 1, seqSched(), 2_000_000)
+	} else {
+		// sequential reference run first: it gives the step budget and the statement count the pre-emption points are scaled to
+		base = runPipe(t, pc, 1, seqSched(), 2_000_000)
+		got = runPipeT(t, pc, pc.Cpus, pc.Sched, base.Sched.Steps*100+20000, base.Sched.Stmts)
+	}
 	okBase := liveness(o, base, pc.Algo+" (1 thread, sequential schedule)")
-	budget := base.Sched.Steps*100 + 20000
-	// 2. run under the drawn schedule
-	got := runPipeT(t, pc, pc.Cpus, pc.Sched, budget, base.Sched.Stmts)
 	okGot := liveness(o, got, fmt.Sprintf("%s (%d threads)", pc.Algo, pc.Cpus))
 	o.Steps = int64(base.Sched.Steps + got.Sched.Steps)
 	o.Key = fmt.Sprintf("%s/%d/%016x", pc.Algo, pc.Cpus, got.Sched.Hash)
@@ -269,8 +275,15 @@ func execC11Cli(t *testing.T, cc any, o *Outcome) {
 		r := runInProcessRes(t, dir, tpl, dc, Seam{MapSeed: 1, Epoch: 1000, Sched: sc}, tag, &res)
 		return r, res
 	}
-	base, bres := run(1, seqSched(), "seq")
-	got, gres := run(c.Threads, c.Sched, "par")
+	var base, got detResult
+	var bres, gres sched.Result
+	if c.Sched.Seed%2 == 0 {
+		got, gres = run(c.Threads, c.Sched, "par")
+		base, bres = run(1, seqSched(), "seq")
+	} else {
+		base, bres = run(1, seqSched(), "seq")
+		got, gres = run(c.Threads, c.Sched, "par")
+	}
 	o.Steps = int64(bres.Steps + gres.Steps)
 	o.Key = fmt.Sprintf("%s/%d/%016x", c.Cmd, c.Threads, gres.Hash)
 	o.Nontrivial = gres.Switches > 0 && gres.Busy >= 2
